@@ -3,7 +3,7 @@ CONSTANTS
   MaxAcct = 6
   MaxSend = 2
   MaxExports = 2
-  DupHeads = "crash"
+  DupHeads = "skip"
   KeyCheck = "none"
   MaxOps = 5
   RestoresPer = 4
